@@ -171,8 +171,8 @@ class LinearForm(_Form):
             # sum on gauss points
             values_e = (values_e_pg * dX_e_pg).integrate()
 
-            # add data
-            data[:, i] = values_e
+            # add data, values_e is a (Ne,) array (e.g. v.dot(f)) or a (Ne, 1) array (e.g. f * v)
+            data[:, i] = values_e.reshape(-1, 1)
 
         return data
 
